@@ -163,6 +163,52 @@ def run(chk):
                 if got != [k]:
                     chk.fail("every registered series is selected unambiguously by its own listed relative name", inp, [k], got,
                              clause="self-relative")
+        # ---- histories: query, mutate the database (update / rename / clear / add), query again ------------------------------------
+        # (derived state such as the common path must follow every mutation)
+        from qats import TimeSeries
+        hl, hm = [], []
+        for db in dbs[:len(dbs) // 2]:
+            other = build(rng, fl)
+            op = rng.choice(["update", "update", "rename", "clear", "add"])
+            keys0 = list(db.register_keys)
+            _ = db.common, db.list(display=False, relative=True)          # query first
+            try:
+                if op == "update":
+                    db.update(other, shallow=rng.random() < 0.5)
+                elif op == "rename":
+                    db.rename(keys0[0], "renamed_series")
+                elif op == "clear":
+                    db.clear(names=keys0[-1], display=False)
+                else:
+                    db.add(TimeSeries("added_1", np.arange(3.0), np.arange(3.0)))
+            except (KeyError, ValueError, LookupError):
+                continue
+            keys = list(db.register_keys)
+            if not keys:
+                continue
+            K = hxlist(keys)
+            hl.append("nm.common %s" % K); hm.append((db, op, "common", None))
+            hl.append("nm.list %s 1 none %s" % (hx(cwd), K)); hm.append((db, op, "rel", None))
+            for k in keys:
+                hl.append("nm.list %s 0 %s %s" % (hx(cwd), hxlist([k]), K)); hm.append((db, op, "full", k))
+        for (db, op, what, arg), o in zip(hm, drv.run(hl)):
+            keys = list(db.register_keys)
+            inp = dict(keys=keys, after=op, what=what, arg=arg)
+            chk.count("history." + what)
+            if what == "common":
+                if unhx(o.split()[1]) != db.common:
+                    chk.disagree("nm.common(after %s)" % op, inp, unhx(o.split()[1]), db.common)
+            elif what == "rel":
+                im = db.list(display=False, relative=True)
+                if unhxlist(o.split()[1]) != im:
+                    chk.disagree("nm.list(relative, after %s)" % op, inp, unhxlist(o.split()[1]), im)
+            else:
+                im = db.list(names=arg, display=False)
+                if unhxlist(o.split()[1]) != im:
+                    chk.disagree("nm.list(after %s)" % op, inp, unhxlist(o.split()[1]), im)
+                if im != [arg]:
+                    chk.fail("every registered series is selected unambiguously by its full key (after %s)" % op,
+                             dict(keys=keys, key=arg, after=op), [arg], im, clause="self-full")
         # ---- the string functions against the Python originals ---------------------------------------------------------------------
         alpha = "ab [](^)!-:*?/."
         sl, sm = [], []
